@@ -155,6 +155,22 @@ func (bal *BalanceGslb) Reload(gslbConf gslb_conf.GslbClusterConf) error {
 	bal.lock.Lock()
 	defer bal.lock.Unlock()
 
+	return bal.reload(gslbConf)
+}
+
+// ReloadAll reloads gslb config and backend config in one critical section, so that
+// Balance() never sees the new sub clusters without their backends.
+func (bal *BalanceGslb) ReloadAll(gslbConf gslb_conf.GslbClusterConf,
+	clusterBackend cluster_table_conf.ClusterBackend) error {
+	bal.lock.Lock()
+	defer bal.lock.Unlock()
+
+	err := bal.reload(gslbConf)
+	bal.backendReload(clusterBackend)
+	return err
+}
+
+func (bal *BalanceGslb) reload(gslbConf gslb_conf.GslbClusterConf) error {
 	// create new SubClusterList
 	var subListNew SubClusterList
 
@@ -237,16 +253,18 @@ func (bal *BalanceGslb) Reload(gslbConf gslb_conf.GslbClusterConf) error {
 
 func (bal *BalanceGslb) BackendReload(clusterBackend cluster_table_conf.ClusterBackend) error {
 	bal.lock.Lock()
+	bal.backendReload(clusterBackend)
+	bal.lock.Unlock()
 
+	return nil
+}
+
+func (bal *BalanceGslb) backendReload(clusterBackend cluster_table_conf.ClusterBackend) {
 	for _, subCluster := range bal.subClusters {
 		if backend, ok := clusterBackend[subCluster.Name]; ok {
 			subCluster.update(backend)
 		}
 	}
-
-	bal.lock.Unlock()
-
-	return nil
 }
 
 func (bal *BalanceGslb) Release() {
